@@ -293,7 +293,48 @@ package k8s
 //@   ensures forall i :: 0 <= i && i < len(nodes) ==> has(m, nodes[i].Name)
 //@   ensures forall i, j :: 0 <= i && i < len(nodes) && 0 <= j && j < len(pods) && pods[j].Spec.NodeName == nodes[i].Name ==> (exists p :: 0 <= p && p < len(m[nodes[i].Name].pods) && m[nodes[i].Name].pods[p] == pods[j])
 
-//@ assume func CalculatePodsRequestedUsage(pods) (r, err)
+//@ import scheduler "github.com/atlassian/escalator/pkg/k8s/scheduler"
+//@ spec podsOK(s []*v1.Pod) bool = forall i :: 0 <= i && i < len(s) ==> s[i] != nil
+// C13: totals over the first k pods / nodes
+//@ opaque spec sumPodCPU(ps []*v1.Pod, k int) int = (k <= 0 ? 0 : sumPodCPU(ps, k - 1) + scheduler.podCPU(ps[k - 1]))
+//@ opaque spec sumPodMem(ps []*v1.Pod, k int) int = (k <= 0 ? 0 : sumPodMem(ps, k - 1) + scheduler.podMem(ps[k - 1]))
+//@ opaque spec sumAllocCPU(ns []*v1.Node, k int) int = (k <= 0 ? 0 : sumAllocCPU(ns, k - 1) + milli(rlCPU(ns[k - 1].Status.Allocatable)))
+//@ opaque spec sumAllocMem(ns []*v1.Node, k int) int = (k <= 0 ? 0 : sumAllocMem(ns, k - 1) + qval(rlMem(ns[k - 1].Status.Allocatable)))
+
+// C13: the request total of a group is the sum over its pods of the per-pod request (CPU millicores, memory bytes).
+//@ func CalculatePodsRequestedUsage(pods) (r, err)
+//@   requires podsOK(pods)
 //@   ensures err == nil
-//@ assume func CalculateNodesCapacity(nodes, pods) (r, err)
+//@   ensures [C13] r.Total.MilliCPU == sumPodCPU(pods, len(pods)) && r.Total.Memory == sumPodMem(pods, len(pods))
+//@ loop #0
+//@   invariant unfold(sumPodCPU(pods, #i)) && unfold(sumPodMem(pods, #i)) && ret.Total.MilliCPU == sumPodCPU(pods, #i) && ret.Total.Memory == sumPodMem(pods, #i)
+
+// C13: capacity is the sum of allocatable CPU (millicores) and memory (bytes) over the nodes given.
+//@ func CalculateNodesCapacity(nodes, pods) (r, err)
+//@   requires podsOK(pods) && (forall i :: 0 <= i && i < len(nodes) ==> nodes[i] != nil)
 //@   ensures err == nil
+//@   ensures [C13] r.Total.MilliCPU == sumAllocCPU(nodes, len(nodes)) && r.Total.Memory == sumAllocMem(nodes, len(nodes))
+//@ loop #0
+//@   invariant unfold(sumAllocCPU(nodes, #i)) && unfold(sumAllocMem(nodes, #i)) && ret.Total.MilliCPU == sumAllocCPU(nodes, #i) && ret.Total.Memory == sumAllocMem(nodes, #i)
+
+// helpers of the starvation heuristics (not part of C13): they only build fresh values
+//@ func mapPodsToNode(pods) (m)
+//@   requires podsOK(pods)
+//@   ensures m != nil && fresh(m)
+//@   ensures forall s string :: has(m, s) ==> podsOK(m[s])
+//@ loop #0
+//@   modifies mapof(ret)
+//@   invariant forall s string :: has(ret, s) ==> birth(base(ret[s])) >= entry(now) && birth(base(ret[s])) < now
+//@   invariant forall s string, t string :: has(ret, s) && has(ret, t) && s != t ==> base(ret[s]) != base(ret[t])
+//@   invariant forall s string :: has(ret, s) ==> podsOK(ret[s])
+//@ func sumPodResourceWithFunc(pods, f) (r)
+//@   fnparam f = pure
+//@   requires podsOK(pods)
+//@ func isPodScheduled(pod) (r)
+//@   requires pod != nil
+//@ func getNodeAvailableResources$1(pod) (r)
+//@   requires pod != nil
+//@ func getNodeAvailableResources$2(pod) (r)
+//@   requires pod != nil
+//@ func getNodeAvailableResources(node, pods) (r)
+//@   requires node != nil && pods != nil && (forall s string :: has(pods, s) ==> podsOK(pods[s]))
